@@ -68,6 +68,74 @@ fn fit(v: &[u8], len: usize) -> Vec<u8> {
     r
 }
 
+/// Special encodings for a little-endian "coordinate plus sign bit in the top bit of the last byte" point
+/// format (Edwards curves, ristretto/decaf, jq255, GLS254 all have this shape): coordinate in
+/// {0, 1, 2, p-2, p-1, p, p+1, all ones} with the top bit clear and set, plus the given extra list and the
+/// top-bit twins of its members. Which of them decode is the library's business; the point is that every
+/// one of them is *delivered* to the decoders, whose status words are then checked.
+fn coord_sign_specials(field_m1: &[u8], enc_len: usize, extra: &[Vec<u8>]) -> Vec<Vec<u8>> {
+    let m1 = fit(field_m1, enc_len);
+    let mut base: Vec<Vec<u8>> = vec![
+        vec![0u8; enc_len],
+        fit(&[1], enc_len),
+        fit(&[2], enc_len),
+        le_sub(&m1, 1),
+        m1.clone(),
+        le_add(&m1, 1),
+        le_add(&m1, 2),
+        {
+            let mut v = vec![0xFFu8; enc_len];
+            v[enc_len - 1] = 0x7F;
+            v
+        },
+    ];
+    if enc_len > field_m1.len() {
+        // formats with a whole extra byte for the sign (Ed448): all ones in the coordinate bytes only
+        let mut v = vec![0xFFu8; enc_len];
+        v[enc_len - 1] = 0;
+        base.push(v);
+    }
+    base.extend(extra.iter().filter(|x| x.len() == enc_len).cloned());
+    let mut r = Vec::new();
+    for b in base {
+        let mut t = b.clone();
+        t[enc_len - 1] ^= 0x80;
+        r.push(b);
+        r.push(t);
+    }
+    r.sort();
+    r.dedup();
+    r
+}
+
+/// Special SEC1 encodings: the suite's refused list, the one-byte infinity, and for each tag in
+/// {00, 02, 03, 04, 05, 06, 07} x in {0, 1, p-1, p, p+1, all ones} (65-byte forms get y = 0 / copied x).
+fn sec1_specials(field_m1_le: &[u8], extra: &[Vec<u8>]) -> Vec<Vec<u8>> {
+    let be = |v: Vec<u8>| { let mut v = v; v.reverse(); v };
+    let xs: Vec<Vec<u8>> = vec![
+        vec![0u8; 32], be(fit(&[1], 32)), be(fit(field_m1_le, 32)), be(le_add(&fit(field_m1_le, 32), 1)),
+        be(le_add(&fit(field_m1_le, 32), 2)), vec![0xFFu8; 32],
+    ];
+    let mut r: Vec<Vec<u8>> = extra.to_vec();
+    r.push(vec![0u8]);
+    for tag in [0u8, 2, 3, 4, 5, 6, 7] {
+        for x in xs.iter() {
+            let mut c = vec![tag];
+            c.extend_from_slice(x);
+            r.push(c.clone());
+            let mut u = c.clone();
+            u.extend_from_slice(&vec![0u8; 32]);
+            r.push(u);
+            let mut u = c;
+            u.extend_from_slice(x);
+            r.push(u);
+        }
+    }
+    r.sort();
+    r.dedup();
+    r
+}
+
 /// Moduli of one scheme, little-endian, as (modulus - 1), taken from the library's own types.
 struct Bounds {
     order_m1: Vec<u8>,
@@ -289,7 +357,7 @@ fn ex_ed25519(n: &mut Net, out: &mut RunOut, tier: Tier) {
     };
     out.ev(format_args!("ed25519 mode{} pk={} sig={}", mode, hex(&pk_enc), hex(&sig)));
     let bd = bounds_of!(crrl::ed25519::Scalar, crrl::field::GF25519);
-    let sp = <crate::world::suite::Ed25519 as crate::world::suite::Suite>::bad_points();
+    let sp = coord_sign_specials(&bd.field_m1, 32, &<crate::world::suite::Ed25519 as crate::world::suite::Suite>::bad_points());
     let (pk2, msg2) = (n.pointish(out, &pk_enc, &sp), n.field(out, &msg));
     let sig2 = if n.t.chance(1, 3) {
         // special encodings for R, boundary values for S
@@ -355,7 +423,7 @@ fn ex_ed448(n: &mut Net, out: &mut RunOut) {
     };
     out.ev(format_args!("ed448 mode{} pk={} sig={}", mode, hex(&pk_enc), hex(&sig)));
     let bd = bounds_of!(crrl::ed448::Scalar, crrl::field::GF448);
-    let sp = <crate::world::suite::Ed448 as crate::world::suite::Suite>::bad_points();
+    let sp = coord_sign_specials(&bd.field_m1, 57, &<crate::world::suite::Ed448 as crate::world::suite::Suite>::bad_points());
     let (pk2, msg2) = (n.pointish(out, &pk_enc, &sp), n.field(out, &msg));
     let sig2 = if n.t.chance(1, 3) {
         let r = n.pointish(out, &sig[..57], &sp);
@@ -438,7 +506,13 @@ fn ex_p256(n: &mut Net, out: &mut RunOut, tier: Tier) {
     let bd = bounds_of!(crrl::p256::Scalar, crrl::field::GFp256);
     let sig2 = n.structured(out, &sig, &[(32, true), (32, true)], &bd);
     let sig2 = ecdsa_repad(n, out, &sig2);
-    let pk2 = if pk_enc.len() == 33 { n.structured(out, &pk_enc, &[(1, true), (32, true)], &bd) } else { n.structured(out, &pk_enc, &[(1, true), (32, true), (32, true)], &bd) };
+    let pk2 = if n.t.chance(1, 3) {
+        n.pointish(out, &pk_enc, &sec1_specials(&bd.field_m1, &[]))
+    } else if pk_enc.len() == 33 {
+        n.structured(out, &pk_enc, &[(1, true), (32, true)], &bd)
+    } else {
+        n.structured(out, &pk_enc, &[(1, true), (32, true), (32, true)], &bd)
+    };
     let hv2 = n.field(out, &hv);
     let skd = n.field(out, &sk.encode());
     let r = g!(out, "call.p256.PrivateKey_decode", hex_abbrev(&skd), PrivateKey::decode(&skd).map(|k| k.to_public_key().encode_compressed()));
@@ -476,7 +550,13 @@ fn ex_secp256k1(n: &mut Net, out: &mut RunOut) {
     let bd = bounds_of!(crrl::secp256k1::Scalar, crrl::field::GFsecp256k1);
     let sig2 = n.structured(out, &sig, &[(32, true), (32, true)], &bd);
     let sig2 = ecdsa_repad(n, out, &sig2);
-    let pk2 = if pk_enc.len() == 33 { n.structured(out, &pk_enc, &[(1, true), (32, true)], &bd) } else { n.structured(out, &pk_enc, &[(1, true), (32, true), (32, true)], &bd) };
+    let pk2 = if n.t.chance(1, 3) {
+        n.pointish(out, &pk_enc, &sec1_specials(&bd.field_m1, &[]))
+    } else if pk_enc.len() == 33 {
+        n.structured(out, &pk_enc, &[(1, true), (32, true)], &bd)
+    } else {
+        n.structured(out, &pk_enc, &[(1, true), (32, true), (32, true)], &bd)
+    };
     let hv2 = n.field(out, &hv);
     let skd = n.field(out, &sk.encode());
     let r = g!(out, "call.secp256k1.PrivateKey_decode", hex_abbrev(&skd), PrivateKey::decode(&skd).map(|k| k.to_public_key().encode_compressed()));
@@ -495,7 +575,7 @@ fn ex_secp256k1(n: &mut Net, out: &mut RunOut) {
 }
 
 macro_rules! ex_schnorr {
-    ($fname:ident, $m:ident, $name:expr) => {
+    ($fname:ident, $m:ident, $name:expr, $fm1:expr) => {
         fn $fname(n: &mut Net, out: &mut RunOut) {
             use crrl::$m::{Point, PrivateKey, PublicKey, Scalar};
             let ska = PrivateKey::generate(&mut n.rng);
@@ -515,15 +595,7 @@ macro_rules! ex_schnorr {
                 order_m1: (Scalar::ZERO - Scalar::ONE).encode().to_vec(),
                 field_m1: vec![0xFF; 32],
             };
-            let specials: Vec<Vec<u8>> = vec![vec![0u8; 32], vec![0xFFu8; 32], {
-                let mut v = vec![0u8; 32];
-                v[31] = 0x80;
-                v
-            }, {
-                let mut v = vec![0xFFu8; 32];
-                v[31] = 0x7F;
-                v
-            }];
+            let specials: Vec<Vec<u8>> = coord_sign_specials(&$fm1, 32, &[]);
             let (pk2, data2) = (n.pointish(out, &pka, &specials), n.field(out, &data));
             let sig2 = n.structured(out, &sig, &[(16, false), (32, false)], &bd);
             match g!(out, concat!("call.", $name, ".PublicKey_decode"), hex_abbrev(&pk2), PublicKey::decode(&pk2)) {
@@ -557,7 +629,7 @@ macro_rules! ex_schnorr {
             let skd = n.field(out, &ska.encode());
             let r = g!(out, concat!("call.", $name, ".PrivateKey_decode"), hex_abbrev(&skd), PrivateKey::decode(&skd).map(|k| k.public_key.encode()));
             out.ev(format_args!(" sk decode -> {:?}", r.map(|x| x.map(|e| hex(&e)))));
-            let pd = n.field(out, &pkb);
+            let pd = n.pointish(out, &pkb, &specials);
             let r = g!(out, concat!("call.", $name, ".Point_set_decode"), hex_abbrev(&pd), {
                 let mut p = Point::NEUTRAL;
                 let st = p.set_decode(&pd);
@@ -575,9 +647,9 @@ macro_rules! ex_schnorr {
     };
 }
 
-ex_schnorr!(ex_jq255e, jq255e, "jq255e");
-ex_schnorr!(ex_jq255s, jq255s, "jq255s");
-ex_schnorr!(ex_gls254, gls254, "gls254");
+ex_schnorr!(ex_jq255e, jq255e, "jq255e", (crrl::field::GF255e::ZERO - crrl::field::GF255e::ONE).encode());
+ex_schnorr!(ex_jq255s, jq255s, "jq255s", (crrl::field::GF255s::ZERO - crrl::field::GF255s::ONE).encode());
+ex_schnorr!(ex_gls254, gls254, "gls254", [0xFFu8; 32]);
 
 fn ex_x25519(n: &mut Net, out: &mut RunOut) {
     use crrl::x25519::{x25519, x25519_base};
@@ -627,7 +699,12 @@ fn ex_groups(n: &mut Net, out: &mut RunOut) {
         let s = Scalar::decode_reduce(&n.rng.bytes(40));
         let p = Point::mulgen(&s);
         let e = p.encode();
-        let d = n.field(out, &e);
+        let sp = coord_sign_specials(
+            &(crrl::field::GF25519::ZERO - crrl::field::GF25519::ONE).encode(),
+            32,
+            &<crate::world::suite::Ristretto255 as crate::world::suite::Suite>::bad_points(),
+        );
+        let d = n.pointish(out, &e, &sp);
         let r = g!(out, "call.ristretto255.Point_decode", hex_abbrev(&d), Point::decode(&d).map(|p| p.encode()));
         out.ev(format_args!("ristretto255 decode {} -> {:?}", hex_abbrev(&d), r.map(|x| x.map(|e| hex(&e)))));
         let r = g!(out, "call.ristretto255.Point_set_decode", hex_abbrev(&d), {
@@ -660,7 +737,8 @@ fn ex_groups(n: &mut Net, out: &mut RunOut) {
         let s = Scalar::decode_reduce(&n.rng.bytes(70));
         let p = Point::mulgen(&s);
         let e = p.encode();
-        let d = n.field(out, &e);
+        let sp = coord_sign_specials(&(crrl::field::GF448::ZERO - crrl::field::GF448::ONE).encode(), 56, &[]);
+        let d = n.pointish(out, &e, &sp);
         let r = g!(out, "call.decaf448.Point_decode", hex_abbrev(&d), Point::decode(&d).map(|p| p.encode()));
         out.ev(format_args!("decaf448 decode {} -> {:?}", hex_abbrev(&d), r.map(|x| x.map(|e| hex(&e)))));
         let r = g!(out, "call.decaf448.Point_set_decode", hex_abbrev(&d), {
@@ -685,7 +763,12 @@ fn ex_groups(n: &mut Net, out: &mut RunOut) {
     {
         // raw curve points (cofactor curves): decode of delivered bytes + status words
         let e = crrl::ed25519::Point::mulgen(&crrl::ed25519::Scalar::decode_reduce(&n.rng.bytes(40))).encode();
-        let d = n.field(out, &e);
+        let sp = coord_sign_specials(
+            &(crrl::field::GF25519::ZERO - crrl::field::GF25519::ONE).encode(),
+            32,
+            &<crate::world::suite::Ed25519 as crate::world::suite::Suite>::bad_points(),
+        );
+        let d = n.pointish(out, &e, &sp);
         let r = g!(out, "call.ed25519.Point_set_decode", hex_abbrev(&d), {
             let mut q = crrl::ed25519::Point::NEUTRAL;
             let st = q.set_decode(&d);
@@ -698,7 +781,12 @@ fn ex_groups(n: &mut Net, out: &mut RunOut) {
             out.ev(format_args!("ed25519 point {:#x} {} sub={:#x} neu={:#x}", st, hex(&enc), sub, neu));
         }
         let e = crrl::ed448::Point::mulgen(&crrl::ed448::Scalar::decode_reduce(&n.rng.bytes(70))).encode();
-        let d = n.field(out, &e);
+        let sp = coord_sign_specials(
+            &(crrl::field::GF448::ZERO - crrl::field::GF448::ONE).encode(),
+            57,
+            &<crate::world::suite::Ed448 as crate::world::suite::Suite>::bad_points(),
+        );
+        let d = n.pointish(out, &e, &sp);
         let r = g!(out, "call.ed448.Point_set_decode", hex_abbrev(&d), {
             let mut q = crrl::ed448::Point::NEUTRAL;
             let st = q.set_decode(&d);
@@ -720,7 +808,12 @@ fn ex_groups(n: &mut Net, out: &mut RunOut) {
                 (p.encode_compressed().to_vec(), p.encode_uncompressed().to_vec())
             };
             let src = if n.t.chance(1, 2) { c } else { u };
-            let d = n.field(out, &src);
+            let sp = if which == 0 {
+                sec1_specials(&(crrl::field::GFp256::ZERO - crrl::field::GFp256::ONE).encode(), &<crate::world::suite::P256 as crate::world::suite::Suite>::bad_points())
+            } else {
+                sec1_specials(&(crrl::field::GFsecp256k1::ZERO - crrl::field::GFsecp256k1::ONE).encode(), &<crate::world::suite::Secp256k1 as crate::world::suite::Suite>::bad_points())
+            };
+            let d = n.pointish(out, &src, &sp);
             if which == 0 {
                 let r = g!(out, "call.p256.Point_set_decode", hex_abbrev(&d), {
                     let mut q = crrl::p256::Point::NEUTRAL;
